@@ -112,6 +112,7 @@ def parse_out(line):
     """-> list of (res, time, [entries]) or None when the line is not an observation list."""
     if line is None or line.startswith(("ERR", "HANG", "HARNESS", "NO-OUTPUT", "PANIC")):
         return None
+    line = line.split(" || ")[0]
     obs = []
     for part in line.split(" | "):
         part = part.strip()
@@ -156,3 +157,12 @@ def first_diff(a, b):
     if len(a) != len(b):
         return min(len(a), len(b)), None, None
     return None
+
+
+def parse_drop(line):
+    """-> (number of model drops after the simulation was dropped, log entries produced after the drop)"""
+    if line is None or " || D:" not in line:
+        return None
+    x = line.split(" || D:")[1]
+    n, rest = x.split(":", 1)
+    return int(n), rest.strip("[]").split()
